@@ -243,6 +243,26 @@ PROPS = {
         "assumptions": ["calls respect the storage contract (index in range; one commit per transaction: a transaction is over after commit, even a refused one)",
                         "partial: the Lean refinement is proved for transaction visibility, read-only mode and add_to_working_set on rows; the remaining SQLite statements are covered by the three-way run only"],
     },
+    "C17": {
+        "module": "TcVerif.Props.C17",
+        "theorems": ["Tc.C17_commit_step", "Tc.C17_serial_commits", "Tc.C17_undo_step", "Tc.C17_stale_undo_noop", "Tc.unsynced_take"],
+        "leanchecker_modules": [],
+        "runs": [
+            {"family": "sqlconc", "flags": [], "quick": {"cases": 40, "max_len": 25}, "thorough": {"cases": 1200, "max_len": 60}},
+        ],
+        "judge_preds": ["lost", "torn", "failed-visible", "ws", "noerr"],
+        "nontrivial": lambda imp, ops: sum(1 for l in ops if " C " in l and l.endswith("-> ok")) >= 6,
+        "rule": "2-8 threads, each with its own SqliteStorage handle (own actor thread, own connection) on one database directory, start together behind a barrier and perform "
+                "3-25 actions each: commits of batches (an undo point, then creates and updates of the worker's own tasks, status changes in and out of pending, updates of "
+                "the worker's own property of one task shared by all), undo (get_undo_operations then commit_reversed_operations), working-set rebuilds with and without "
+                "renumbering, and full reads; every result is recorded. Afterwards a fresh handle reads the stored operations in stored order, the tasks and the working set. "
+                "Model side: the replay of the stored operations from nothing must equal the stored tasks (the law the C17 theorems give for any one-at-a-time order). Judge: "
+                "stored operations = acknowledged batches minus the operations of acknowledged undos, as multisets; every batch present as one contiguous block in order; no "
+                "operation of a transaction that reported failure; working set without duplicates. non-trivial = at least six acknowledged commits; distinct by SHA-1. "
+                "The schedule is the operating system's: a failing case is re-judged from its recorded logs, it cannot be re-run identically",
+        "trusted_base": TB_COMMON + ["thread schedules are whatever the OS produces on 16 cores; processes (as opposed to threads) sharing the directory are exercised only by C06's child process"],
+        "assumptions": ["partial: serialisation itself (BEGIN IMMEDIATE, busy timeout) is SQLite's; checked through its consequences, not proved"],
+    },
     "C18": {
         "module": "TcVerif.Props.C18",
         "theorems": ["Tc.C18_timestamp_total", "Tc.C18_timestamp_is_accessor", "Tc.C18_pinned_counterexample", "Tc.C18_repair_conservative",
